@@ -40,3 +40,24 @@ Fixpoint freplay (n : nat) (st : fst_) (os : list fobs) : bool :=
 (* (number of retry delays, initial lock file, programs, observed run) *)
 Definition chk_fl (c : nat * fstate * list (list acq) * list fobs) : bool :=
   let '(n, f0, progs, os) := c in freplay n (finit progs f0) os.
+
+Inductive fotree := FONode (o : fobs) (after : list nat) (kids : list fotree).
+
+Fixpoint freplay_tree (n : nat) (st : fst_) (tr : fotree) : bool :=
+  match tr with
+  | FONode o after kids =>
+      eqb_list Nat.eqb (fenabled_list st) (fo_enabled o)
+      && match fstep false n st (fo_label o) with
+         | None => false
+         | Some (st1, ev) =>
+             eqb_list fevent_eqb ev (fo_events o)
+             && fstate_eqb (file st1) (fo_file o)
+             && eqb_list Nat.eqb (map fstatus_of (ftasks st1)) (fo_status o)
+             && eqb_list Nat.eqb (fenabled_list st1) after
+             && (fix all (ks : list fotree) : bool :=
+                   match ks with [] => true | k :: r => freplay_tree n st1 k && all r end) kids
+         end
+  end.
+
+Definition chk_fl_tree (c : nat * fstate * list (list acq) * list fotree) : bool :=
+  let '(n, f0, progs, trs) := c in forallb (freplay_tree n (finit progs f0)) trs.
